@@ -26,6 +26,14 @@ Four monitors sit on the code objects of ``save_xye``, ``load_xye``, ``_deduce_c
   coordinate -> that one; several -> the one named like da.dim; else an error"), which speaks of the
   coordinates of ``da`` whatever state they are in (aligned or not, per-row or scalar).
 
+Text outside ASCII: a header the caller supplies is quantified over ASCII only, but the header
+``save_xye`` generates itself is made from the coordinate name and the unit strings of the data, and
+scipp prints angstrom, micro- and degree-units with 'Å', 'µ', '°'.  Such data are ordinary members of
+"one-dimensional data with variances", so their files are judged like all others (the monitors read
+files as bytes, one character per byte, so offsets stay byte offsets; comment lines may hold any
+bytes) as long as the text encoding of the target (what ``open()`` uses by default for a path, the
+``encoding`` of a handle, none for StringIO) can encode the generated header at all.
+
 Nothing here calls scippneutron to obtain an expected value: expectations are the supplied
 arrays themselves (bytes) and a long-double square root.
 """
@@ -50,7 +58,12 @@ RULE = (
     'case = one save_xye call (plus load_xye of what it wrote) on a generated 1-d data array: '
     'values from {+-0, denormal min, min normal, 1 +- ulp, max float, random finite bit patterns, '
     'ordinary}, 1..1e4 rows, 1..5 coordinates with/without coord=, header class (generated with '
-    'benign or hostile coordinate names, empty, ASCII text with #, LF, CRLF, bare CR, data-row '
+    'benign or hostile coordinate names, generated from a coordinate unit / data unit / both whose scipp '
+    'string form is not ASCII (every such unit of a pool: angstrom, 1/angstrom, us, uA, um, degC, ...) or from '
+    'a coordinate name outside ASCII (latin-1, Greek, CJK, astral), each of these x header source (generated, '
+    'user text, empty) x target (str path, pathlib path, .gz/.bz2/.xz path, handle, CRLF handle, both StringIO '
+    'kinds), path-written files read back through the path and through a default text handle, a path that '
+    'already holds a longer file whose bytes are not UTF-8; empty, ASCII text with #, LF, CRLF, bare CR, data-row '
     'lookalikes, other ASCII control characters), target kind (str path, pathlib path, StringIO, '
     'StringIO(newline=None), text handle, CRLF text handle), coordinate state (built from variables; '
     'alignment flags cleared at random; integer slice / length-1 range + squeeze of 2-d data in either '
@@ -61,7 +74,7 @@ RULE = (
     'saves, caller-written title / comment / number lines), tables are read back from their start offset '
     '(seek, or reading lines up to it, or reading on into header / rows) right after they were written and '
     'at the end, from offset 0 and through the path.  distinct = distinct (accept/refuse class, target, '
-    'header class, n coords, coord= given, row band, value class, coordinate-state route; stream: target, '
+    'header class, n coords, coord= given, row band, value class, coordinate-state route, non-ASCII class; stream: target, '
     'header class, first / behind other content); trivial = ordinary values, generated header, one benign '
     'coordinate built from variables'
 )
@@ -79,8 +92,11 @@ ASSUMPTIONS = [
     'selects a coordinate without a value per row (a scalar), the save is executed and counted, not judged',
     'zero-dimensional input counts as "not one-dimensional" and must be refused (docstring: "The input must be '
     '1-dimensional"; the code raises DimensionError for ndim != 1)',
-    'headers and generated headers outside ASCII (unit strings such as angstrom, us) are outside the '
-    'quantifier: executed and counted, not judged',
+    'header text supplied by the caller outside ASCII is outside the quantifier: executed and counted, not '
+    'judged. The header save_xye generates itself (coordinate name, unit strings such as scipp prints for '
+    'angstrom, us, degC) belongs to the data, not to the caller: such files are judged, provided the text '
+    'encoding of the target (default encoding of open() in this process for paths, .encoding of a handle; '
+    'StringIO has none) can encode the header, and a reader handle uses the encoding of the writer',
 ]
 TECHNIQUE = ('runtime monitors (sys.monitoring) on save_xye / load_xye / _deduce_coord / '
              '_generate_xye_header; independent text-table parser on the artefact; bitwise and ulp '
@@ -270,6 +286,47 @@ class Monitors:
     @staticmethod
     def is_stream(fname):
         return not isinstance(fname, str | os.PathLike)
+
+    # ---- text encodings (only relevant for generated headers outside ASCII) ----
+    _default_encoding = None
+
+    @classmethod
+    def target_encoding(cls, fname):
+        """Codec name of the text layer of a target; None for StringIO (characters are kept as they are).
+
+        A path is opened by whoever reads / writes it without an encoding argument: what ``open()`` uses
+        then is observed once on os.devnull (no call into the package)."""
+        import codecs
+        if isinstance(fname, io.StringIO):
+            return None
+        if isinstance(fname, str | os.PathLike):
+            if cls._default_encoding is None:
+                with open(os.devnull, 'w') as f:
+                    cls._default_encoding = codecs.lookup(f.encoding).name
+            return cls._default_encoding
+        enc = getattr(fname, 'encoding', None)
+        try:
+            return codecs.lookup(enc).name if isinstance(enc, str) else 'unknown'
+        except LookupError:
+            return 'unknown'
+
+    @staticmethod
+    def encodable(text, enc):
+        if enc is None:
+            return True
+        try:
+            text.encode(enc)
+            return True
+        except (UnicodeError, LookupError):
+            return False
+
+    @staticmethod
+    def target_class(fname, key):
+        if isinstance(fname, io.StringIO):
+            return 'stringio'
+        if isinstance(fname, str | os.PathLike):
+            return 'path_compressed' if str(key[1]).endswith(('.gz', '.bz2', '.xz')) else 'path'
+        return 'handle'
 
     @staticmethod
     def position(fname):
@@ -466,11 +523,36 @@ class Monitors:
             stream = self.is_stream(ev.args['fname'])
             if span is not None:
                 case['written_span'] = [span[0], span[1]]
+            # text outside ASCII: a caller's header is outside the quantifier; the header the package
+            # generates from the data (coordinate name, unit strings) is judged when the text encoding
+            # of the target can hold it at all
+            fobj = ev.args['fname']
+            enc = self.target_encoding(fobj)
+            unit_na = {'coord': not str(da.coords[chosen].unit).isascii(), 'data': not str(da.unit).isascii()}
+            non_ascii = {
+                'enc': enc, 'tclass': self.target_class(fobj, key), 'header': not facts['header_ascii'],
+                'generated': generated,
+                'units': 'both' if all(unit_na.values()) else 'coord' if unit_na['coord'] else
+                         'data' if unit_na['data'] else None,
+                'name': not str(chosen).isascii(),
+                'symbols': sorted({'U+%04X' % ord(c) for c in eff_header if ord(c) > 127}) if generated else [],
+                'existed': (not stream) and isinstance(ev.pre, dict) and bool(ev.pre.get('text')),
+            }
+            outside = None
+            if not facts['header_ascii']:
+                if not generated:
+                    outside = 'non_ascii_header_supplied_by_caller'
+                elif not self.encodable(eff_header, enc):
+                    outside = 'generated_header_not_encodable_in_text_encoding_of_target'
+                case['target_text_encoding'] = enc
         except Exception:  # noqa: BLE001
             ctx.oracle_error('C15 file monitor (setup)')
             return
         if ev.exc is not None:
             self.drop_segments(key, None)
+            if outside:
+                ctx.count('out_of_domain:' + outside)
+                return
             self.viol('save_raised', f'save_xye raised {type(ev.exc).__name__}: {str(ev.exc)[:160]} '
                       'for representable input', case, exc_type=type(ev.exc).__name__, **keys)
             return
@@ -487,15 +569,16 @@ class Monitors:
         seg = {'start': a, 'end': b, 'text': seg_text, 'judged': False}
         self.ledger.setdefault(key, []).append(seg)
         self.ledger[key].sort(key=lambda g: g['start'])
-        if not facts['header_ascii']:
-            ctx.count('out_of_domain:non_ascii_header')
+        if outside:
+            ctx.count('out_of_domain:' + outside)
             return
         if not (np.all(np.isfinite(x)) and np.all(np.isfinite(y)) and np.all(np.isfinite(var))
                 and np.all(var >= 0) and n >= 1):
             ctx.count('out_of_domain:non_finite_or_negative_variance_or_empty')
             return
         seg.update({'judged': True, 'x': x, 'y': y, 'var': var, 'n': n, 'keys': keys, 'case': case,
-                    'file_header_escaped': False, 'keep': ev.args['fname'], 'chosen': chosen})
+                    'file_header_escaped': False, 'keep': ev.args['fname'], 'chosen': chosen,
+                    'non_ascii': non_ascii})
         entry = seg
         try:
             if text is None:
@@ -653,6 +736,14 @@ class Monitors:
             if not all(g['judged'] for g, _ in parts):
                 ctx.count('out_of_domain:load_of_unjudged_file')
                 return
+            nas = [g['non_ascii'] for g, _ in parts if g['non_ascii']['header']]
+            if nas:
+                # a table whose generated header is not ASCII: the reader has to decode what the writer
+                # encoded (a path is opened with the default of open(), a handle has its own encoding)
+                renc = self.target_encoding(fname)
+                if any(a['enc'] is not None and renc is not None and a['enc'] != renc for a in nas):
+                    ctx.count('out_of_domain:reader_text_encoding_differs_from_writer')
+                    return
             x = np.concatenate([g['x'][r:] for g, r in parts])
             y = np.concatenate([g['y'][r:] for g, r in parts])
             var = np.concatenate([g['var'][r:] for g, r in parts])
@@ -678,6 +769,9 @@ class Monitors:
             if self.label.get('step') is not None:
                 case['step'] = self.label['step']
             ctx.event('load_xye.roundtrip')
+            if nas:
+                ctx.event('load_xye.roundtrip.generated_header_not_ascii')
+                keys['generated_header_ascii'] = False
             if stream:
                 ctx.hit('read_from:' + start_class)
                 if len(parts) > 1:
@@ -753,6 +847,31 @@ class Monitors:
                 ctx.hit('rows:1')
             if n >= 10000:
                 ctx.hit('rows:>=1e4')
+            # data whose units / coordinate name are not ASCII, by header source x kind of target written
+            for g, _ in parts:
+                a = g['non_ascii']
+                mode = g['keys']['header_mode']
+                if a['units']:
+                    ctx.hit(f"nonascii_units:{mode}:{a['tclass']}")
+                    ctx.hit('nonascii_unit_on:' + a['units'])
+                if a['name']:
+                    ctx.hit(f"nonascii_coord_name:{mode}:{a['tclass']}")
+                if a['header']:
+                    ctx.hit('nonascii_generated_header:' + a['tclass'])
+                    if a['tclass'].startswith('path'):
+                        ctx.hit('nonascii_generated_header:path_written_read_through_'
+                                + ('handle' if stream else 'path'))
+                        for cp in a['symbols']:
+                            ctx.hit('nonascii_generated_header:path:' + cp)
+                        top = max((int(cp[2:], 16) for cp in a['symbols']), default=0)
+                        if top > 0xFF:     # no single-byte encoding holds it (coordinate names)
+                            ctx.hit('nonascii_generated_header:path:beyond_latin1')
+                        if top > 0xFFFF:
+                            ctx.hit('nonascii_generated_header:path:beyond_bmp')
+                    if n == 1:
+                        ctx.hit('nonascii_generated_header:rows_1')
+                if a['existed']:
+                    ctx.hit('path:file_existed_before' + ('_and_header_not_ascii' if a['header'] else ''))
         except Exception:  # noqa: BLE001
             ctx.oracle_error('C15 round-trip monitor')
 
@@ -837,7 +956,33 @@ HOSTILE_NAMES = ['two theta', '#x', 'a\nb', '1 2 3', '4 5 6\n7 8 9', '', ' ', 'x
                  'q\r\n7 8 9', '~!@$%^&*()[]{}', "quo'te\"s", '\\n']
 CR_NAMES = ['x\r1 2 3\n', 'r\rdim', 'a\r', '\r7 8 9', 'x\r\r1 2 3\n']
 ASCII_UNITS = ['m', 'deg', 'counts', 'meV', 'one', None, 's', 'K*s/m**2', 'rad']
-NON_ASCII_UNITS = ['angstrom', 'us', '1/angstrom']
+# "every unit with a non-ASCII symbol": candidates from the unit families scipp prints with 'Å', 'µ', '°';
+# the pool is what the container (scipp) really prints outside ASCII, decided here, not assumed
+_NA_CANDIDATES = ['angstrom', 'us', '1/angstrom', 'uA', 'um', 'degC', 'counts/angstrom', 'angstrom**2', 'us**2',
+                  'ueV', 'uAh', 'uK', 'degC*us', 'counts/us', 'ohm', 'uohm']
+
+
+def _non_ascii_units():
+    out = []
+    for u in _NA_CANDIDATES:
+        try:
+            if not str(sc.Unit(u)).isascii():
+                out.append(u)
+        except Exception:  # noqa: BLE001
+            pass
+    return out
+
+
+NON_ASCII_UNITS = _non_ascii_units()
+# coordinate names outside ASCII: inside latin-1, Greek, letterlike, CJK, astral plane
+NON_ASCII_NAMES = ['λ', '2θ', 'd [Å]', 'Δd/d', 'ħω', '波長', 'Energía', 'tof_µs', 'Q (Å⁻¹)', '𝜆', 'größe', '°C']
+NA_POSITIONS = ['coord', 'data', 'both']
+NA_HEADERS = ['default', 'plain', 'empty']
+# (target kind, forced file-name suffix): numpy compresses by file name
+NA_TARGETS = [('path_str', ''), ('path_pathlib', ''), ('path_str', '.gz'), ('path_pathlib', '.bz2'),
+              ('path_str', '.xz'), ('handle', ''), ('handle_crlf', ''), ('stringio', ''), ('stringio_universal', '')]
+# a file that stands at the path before the call: longer than what is written, bytes that are not UTF-8
+OLD_FILE = b'# d [\xc5]  Y [\xb5s] E\n' + b''.join(b'%d 2.000000000000000000e+00 3.000000000000000000e+00\n' % i for i in range(20000))
 ROW_LIKE = ['1 2 3', '4 5 6', '1.5 -2.5e3 0.25', '0 0 0', '1e300 1e-300 5e-324', '7 8 9']
 SEPS = ['\n', '\r\n', '\r']
 # ASCII characters that str.splitlines() treats as line boundaries but files do not, and other controls
@@ -942,6 +1087,24 @@ def schedule():
     for lay in LAYOUTS[1:]:
         for t in ('stringio', 'path_str'):
             out.append({'kind': 'accept', 'header': 'default', 'target': t, 'rows': None, 'layout': lay})
+    # data whose unit strings / coordinate name are not ASCII: every header source x every kind of target;
+    # for the generated header every position of the unit; the unit index runs through the whole pool on
+    # the path targets of the generated header (they come first)
+    c = 0
+    for h in NA_HEADERS:
+        for ti, (t, sfx) in enumerate(NA_TARGETS):
+            for pi, pos in enumerate(NA_POSITIONS if h == 'default' else [NA_POSITIONS[(ti + c) % 3]]):
+                out.append({'kind': 'accept', 'header': h, 'target': t, 'suffix': sfx, 'nonascii': pos,
+                            'na_index': c, 'rows': 1 if (ti + pi) % 4 == 0 else None,
+                            'existing': t.startswith('path') and (ti + pi) % 3 == 1})
+                c += 1
+    for h in NA_HEADERS:
+        for ti, (t, sfx) in enumerate(NA_TARGETS):
+            if h == 'default' or ti % 4 == 0:
+                out.append({'kind': 'accept', 'header': h, 'target': t, 'suffix': sfx, 'nonascii': 'name',
+                            'na_index': c, 'rows': 1 if ti % 5 == 0 else None,
+                            'existing': t.startswith('path') and ti % 2 == 0})
+                c += 1
     return out
 
 
@@ -965,21 +1128,25 @@ class Env:
         self.tmp, self.save, self.load, self.mon, self.ctx, self.tier = tmp, scn_save, scn_load, mon, ctx, tier
         self.nfile = 0
 
-    def fresh_path(self, compressed_ok=False):
+    def fresh_path(self, compressed_ok=False, suffix=None):
         self.nfile += 1
         # numpy compresses / decompresses by file name; such names are legitimate path targets
-        suffix = ''
-        if compressed_ok and self.nfile % 7 == 0:
-            suffix = ['.gz', '.bz2', '.xz'][(self.nfile // 7) % 3]
+        if suffix is None:
+            suffix = ''
+            if compressed_ok and self.nfile % 7 == 0:
+                suffix = ['.gz', '.bz2', '.xz'][(self.nfile // 7) % 3]
         return os.path.join(self.tmp, f'f{self.nfile}.xye{suffix}')
 
-    def open_target(self, kind):
+    def open_target(self, kind, suffix=None, existing=False):
         """-> (object handed to save_xye, path or None, closer)"""
         if kind == 'stringio':
             return io.StringIO(), None, None
         if kind == 'stringio_universal':
             return io.StringIO(newline=None), None, None
-        p = self.fresh_path(compressed_ok=kind in ('path_str', 'path_pathlib'))
+        p = self.fresh_path(compressed_ok=kind in ('path_str', 'path_pathlib'), suffix=suffix)
+        if existing and kind in ('path_str', 'path_pathlib'):
+            with open(p, 'wb') as f:    # under a compressed name: not even a compressed file
+                f.write(OLD_FILE)
         if kind == 'path_str':
             return p, p, None
         if kind == 'path_pathlib':
@@ -1074,6 +1241,15 @@ def build_accept(rng, spec, tier, k):
         names[0] = HOSTILE_NAMES[int(rng.integers(0, len(HOSTILE_NAMES)))]
     if h == 'default_cr_name':
         names[0] = CR_NAMES[int(rng.integers(0, len(CR_NAMES)))]
+    # units / names outside ASCII: scheduled (forced classes), and at random with every header class
+    na = spec.get('nonascii')
+    na_i = spec.get('na_index')
+    if na is None and rng.random() < 0.12:
+        na = ['coord', 'data', 'both', 'name'][int(rng.integers(0, 4))]
+    if na_i is None:
+        na_i = int(rng.integers(0, 1000))
+    if na == 'name' and h not in ('default_hostile_name', 'default_cr_name'):
+        names[0] = NON_ASCII_NAMES[na_i % len(NON_ASCII_NAMES)]
     names = list(dict.fromkeys(names))
     ncoords = len(names)
     chosen = names[0]
@@ -1082,10 +1258,12 @@ def build_accept(rng, spec, tier, k):
         'row' if 'row' not in names else 'row_')
     if not explicit and ncoords == 1 and rng.random() < 0.5:
         dim = 'row'   # a single coordinate need not be the dimension-coordinate
-    non_ascii = h == 'default' and rng.random() < 0.04
-    cunit = NON_ASCII_UNITS[int(rng.integers(0, len(NON_ASCII_UNITS)))] if non_ascii else \
-        ASCII_UNITS[int(rng.integers(0, len(ASCII_UNITS)))]
+    cunit = ASCII_UNITS[int(rng.integers(0, len(ASCII_UNITS)))]
     unit = ASCII_UNITS[int(rng.integers(0, len(ASCII_UNITS)))]
+    if na in ('coord', 'both'):
+        cunit = NON_ASCII_UNITS[na_i % len(NON_ASCII_UNITS)]
+    if na in ('data', 'both'):
+        unit = NON_ASCII_UNITS[(na_i if na == 'data' else 5 * na_i + 3) % len(NON_ASCII_UNITS)]
     y = draw_values(rng, n, vcls)
     var = np.abs(draw_values(rng, n, vcls))
     coords = {}
@@ -1111,7 +1289,8 @@ def build_accept(rng, spec, tier, k):
     if hdr is not None:
         kw['header'] = hdr
     band = '1' if n == 1 else '2-3' if n < 4 else '4-300' if n <= 300 else '301-3000' if n < 10000 else '1e4'
-    sig = ('accept', spec['target'], h, len(da.coords), explicit, band, vcls, layout)
+    sig = ('accept', spec['target'], h, len(da.coords), explicit, band, vcls, layout,
+           (na or '-') + (spec.get('suffix') or ''))
     trivial = (h == 'default' and vcls == 'ordinary' and len(da.coords) == 1 and not hostile
                and layout == 'dict')
     return da, kw, dim, chosen, unit, cunit, sig, trivial
@@ -1416,7 +1595,7 @@ def run_one(shard, k, env):
     da, kw, dim, chosen, unit, cunit, sig, trivial = build_accept(rng, spec, env.tier, k)
     ctx.hit('header:' + spec['header'])
     ctx.hit('target:' + spec['target'])
-    tgt, path, closer = env.open_target(spec['target'])
+    tgt, path, closer = env.open_target(spec['target'], spec.get('suffix'), bool(spec.get('existing')))
     saved = False
     try:
         try:
@@ -1447,6 +1626,14 @@ def run_one(shard, k, env):
             finally:
                 if fh:
                     fh.close()
+            if spec['target'].startswith('path') and not path.endswith(('.gz', '.bz2', '.xz')) \
+                    and (spec.get('nonascii') or rng.random() < 0.25):
+                # the file save_xye put under the path, read through a text handle opened the default way
+                with open(path) as fh2:
+                    try:
+                        env.load(fh2, **lkw)
+                    except Exception:  # noqa: BLE001  judged by the round-trip monitor
+                        pass
     finally:
         mon.ledger.clear()
         if path and os.path.exists(path):
@@ -1470,6 +1657,9 @@ def arm(ctx):
 
 
 # ------------------------------------------------------------------ driver ---
+NA_TCLASSES = ['path', 'path_compressed', 'handle', 'stringio']
+# code points outside ASCII in the string forms of the unit pool (what the generated header must carry)
+NA_UNIT_SYMBOLS = sorted({'U+%04X' % ord(ch) for u in NON_ASCII_UNITS for ch in str(sc.Unit(u)) if ord(ch) > 127})
 N_SHARDS = 16
 CASES = {'quick': 40, 'thorough': 1300}
 
@@ -1495,10 +1685,22 @@ def requirements(tier):
                  'stream:table_written_behind_other_content', 'refuse:into_stream_with_content',
                  'refuse:masks_all_row_independent',
                  'read_from:stream_start', 'read_from:table_start', 'read_from:inside_header',
-                 'read_from:inside_table', 'read:several_tables_to_end_of_stream'])
+                 'read_from:inside_table', 'read:several_tables_to_end_of_stream']
+              + [f'nonascii_units:{m}:{tc}' for m in ('generated', 'explicit', 'empty') for tc in NA_TCLASSES]
+              + ['nonascii_unit_on:' + p for p in NA_POSITIONS]
+              + [f'nonascii_coord_name:{m}:{tc}' for m in ('generated',) for tc in NA_TCLASSES]
+              + ['nonascii_coord_name:explicit:path', 'nonascii_coord_name:empty:path']
+              + ['nonascii_generated_header:' + tc for tc in NA_TCLASSES]
+              + ['nonascii_generated_header:path_written_read_through_path',
+                 'nonascii_generated_header:path_written_read_through_handle',
+                 'nonascii_generated_header:rows_1', 'nonascii_generated_header:path:beyond_latin1',
+                 'nonascii_generated_header:path:beyond_bmp',
+                 'path:file_existed_before', 'path:file_existed_before_and_header_not_ascii']
+              + ['nonascii_generated_header:path:' + cp for cp in NA_UNIT_SYMBOLS])
     return {'events': {'save_xye.file': 250 if q else 10000, 'load_xye.roundtrip': 250 if q else 10000,
                        'save_xye.refusal': 80 if q else 3000, '_deduce_coord': 60 if q else 2000,
-                       '_generate_xye_header': 60 if q else 2000},
+                       '_generate_xye_header': 60 if q else 2000,
+                       'load_xye.roundtrip.generated_header_not_ascii': 40 if q else 400},
             'forced': forced}
 
 
